@@ -84,6 +84,10 @@ struct WMon {
     last_reload_ts: Option<u64>,
     reload_windows: Vec<(u64, u64)>,
     v6_paths: Vec<usize>,
+    /// paths that have a socket by the simulator's account (binder seam)
+    has_socket: HashSet<usize>,
+    /// paths whose bind currently fails by injection
+    bind_fail: HashSet<usize>,
     c19_off: bool,
     timeout_ms: u64,
     // ---- classic housekeeping on the wire (C06 / C10) ----
@@ -304,9 +308,14 @@ impl WMon {
             return;
         }
         out.probe("w.c19.accepted");
-        let added: Vec<usize> = list.iter().copied().filter(|p| !self.active.contains(p)).collect();
+        // "new" is an address without an uplink - whether it was never listed or its uplink could
+        // not be created earlier (bind failure); addresses whose bind fails right now are not judged
+        let added: Vec<usize> = list.iter().copied().filter(|p| !self.has_socket.contains(p) && !self.bind_fail.contains(p)).collect();
         let removed: Vec<usize> = self.active.iter().copied().filter(|p| !list.contains(p)).collect();
-        let survivors: Vec<usize> = self.active.iter().copied().filter(|p| list.contains(p)).collect();
+        let survivors: Vec<usize> = self.active.iter().copied().filter(|p| list.contains(p) && self.has_socket.contains(p)).collect();
+        if list.iter().any(|p| !self.has_socket.contains(p) && self.active.contains(p)) {
+            out.probe("w.c19.listed_address_without_uplink");
+        }
         if !removed.is_empty() {
             self.reload_windows.push((now, now + 1030));
             out.probe("w.c19.removal");
@@ -453,6 +462,7 @@ impl WMon {
             }
             _ => {}
         }
+        self.has_socket.insert(path);
         self.dead_since.remove(&path);
         self.ka_window.remove(&path);
         let via = format!(" via {}", crate::lsim::path_ip(path));
@@ -517,7 +527,7 @@ impl WMon {
             let r = self.reload.take().unwrap();
             for p in &r.added {
                 let n = r.binds_seen.get(p).copied().unwrap_or(0);
-                if n != 1 && !self.v6_paths.contains(p) {
+                if n != 1 && !self.v6_paths.contains(p) && !self.bind_fail.contains(p) {
                     out.violate(
                         &format!("{M19}.applied"),
                         if n == 0 { "addition_missing_whole_loop" } else { "added_twice_whole_loop" },
@@ -527,6 +537,7 @@ impl WMon {
                 }
             }
             for p in &r.removed {
+                self.has_socket.remove(p);
                 self.dead_since.insert(*p, r.deadline);
                 self.registered.remove(p);
                 self.heard.remove(p);
@@ -622,6 +633,17 @@ async fn run(plan: &LPlan, want_excerpt: bool) -> RunOutcome {
             s.path_for_ip(crate::lsim::path_ip(i));
         }
     });
+    let mut early_bind_fail: Vec<usize> = Vec::new();
+    for a in plan.actions.iter().filter(|a| a.t == 0) {
+        if let Action::BindFail { link, on: true } = &a.kind {
+            let p = seam.with(|s| {
+                let p = s.path_for_ip(crate::lsim::path_ip(*link));
+                s.bind_fail[p] = true;
+                p
+            });
+            early_bind_fail.push(p);
+        }
+    }
     let ips_file = format!("/tmp/verif-wips-{}-{:?}.txt", std::process::id(), std::thread::current().id()).replace(['(', ')'], "");
     let text: String = plan.initial_ips().iter().map(|ip| format!("{ip}\n")).collect();
     let _ = std::fs::write(&ips_file, text);
@@ -656,10 +678,22 @@ async fn run(plan: &LPlan, want_excerpt: bool) -> RunOutcome {
     };
     let (stats_tx, mut stats_rx) = tokio::sync::mpsc::channel::<String>(4096);
     let _stats_sub = hub.subscribe("stats", stats_tx).await;
+    // in every second run a control client that subscribed to the statistics and never reads:
+    // its one-slot channel is full after the first tick and stays full
+    let (stall_tx, _stalled_subscriber) = tokio::sync::mpsc::channel::<String>(1);
+    let stalled = hash3(plan.seed, 0x57A1, 0) % 2 == 0;
+    if stalled {
+        let _ = hub.subscribe("stats", stall_tx).await;
+    }
     let mut env = Env::new(plan);
     let mut mon = WMon::default();
+    if stalled {
+        stats_c.inc("fault.stalled_stats_subscriber");
+    }
     mon.timeout_ms = plan.cfg.conn_timeout_ms;
     mon.classic_since = plan.cfg.classic.then_some(plan.time_base_ms);
+    mon.bind_fail = early_bind_fail.iter().copied().collect();
+    mon.has_socket = seam.with(|s| (0..s.path_gen.len()).filter(|p| s.path_gen[*p] > 0).collect());
     mon.active = seam.with(|s| plan.initial_ips().iter().map(|ip| s.path_for_ip(*ip)).collect());
     let client_addr: SocketAddr = "127.0.0.1:40000".parse().unwrap();
     let start_ms = plan.time_base_ms;
@@ -743,6 +777,19 @@ async fn run(plan: &LPlan, want_excerpt: bool) -> RunOutcome {
                             }
                         }
                         Action::Critical { ms } => critical.extend_to(now + ms),
+                        Action::BindFail { link, on } if a.t > 0 || !*on => {
+                            let p = seam.with(|s| {
+                                let p = s.path_for_ip(crate::lsim::path_ip(*link));
+                                s.bind_fail[p] = *on;
+                                p
+                            });
+                            if *on {
+                                mon.bind_fail.insert(p);
+                                stats_c.inc("fault.bind_failure_armed");
+                            } else {
+                                mon.bind_fail.remove(&p);
+                            }
+                        }
                         // only mode switches are honoured here: the wire monitors assume the
                         // liveness timeout and the guard thresholds of the plan
                         Action::Control { line } if line.contains("set_mode") => {
